@@ -339,10 +339,25 @@ def run(ctx):
                       {"log": xlog}, no_input=True)
     distinct = set()
     samples = []
+    # forests with duplicate alternatives are instances of the listed finding only if the frozen baseline
+    # implementation returns the very same forest on the same grammar and input
+    dupcases = [(r, c) for k, (r, c) in enumerate(index) if outs[2 * k][0] and not outs[2 * k][3]]
+    base_same = {}
+    if dupcases:
+        bjobs = [(r["gname"], r["gtext"], [c["input"]], 4) for r, c in dupcases]
+        bres = common.baseline_run("props.c03", "_worker", bjobs)
+        for (r, c), br in zip(dupcases, bres or []):
+            bc = br["cases"][0] if br and not br.get("gerr") and br.get("cases") else None
+            base_same[(id(r), c["input"])] = bool(bc) and bc.get("nodes") == c.get("nodes")
     for k, (r, c) in enumerate(index):
         st_out = outs[2 * k]
         ix_out = outs[2 * k + 1]
         probs, kf_dup = check_case(ctx, r["gname"], r["gtext"], c, st_out, ix_out, stats)
+        if kf_dup and not base_same.get((id(r), c["input"]), False):
+            kf_dup = False
+            stats["dup_forests_not_in_baseline"] = stats.get("dup_forests_not_in_baseline", 0) + 1
+            probs.append(("impl", "a packed node holds two identical alternatives (the baseline implementation "
+                                  "returns another forest for this input: not the listed finding)"))
         stats["indices_compared"] += len(c["idx"])
         stats["oob_compared"] += len(c["oob"])
         if c["solutions"] > 1:
